@@ -2,7 +2,7 @@
      core/engine/engine.go   instancePool.awaitRun / checkAllInstancesAreFinished / startInstances
      cli/cli.go              awaitPandoraTermination (signal branch, error branch, normal end)
    Two small event systems. Executable definitions only. *)
-From Coq Require Import List Arith Bool.
+From Coq Require Import List Arith ZArith Bool.
 From PV Require Import Gen.PhoutGen.
 Import ListNotations.
 
@@ -153,9 +153,16 @@ Definition all_true (l : list bool) : bool := forallb (fun b => b) l.
 
 Definition upd (s : proc) (f : proc -> proc) : option proc := Some (f s).
 
+(* The documented time budgets of the cli (bridged to the values read from cli/cli.go):
+   CTimeout stands for "that long has elapsed since the failure / the signal". *)
+Definition await_timeout_ns : Z := 3000000000.      (* failed run: "Awaiting started tasks", 3 s *)
+Definition sigterm_timeout_ns : Z := 3000000000.    (* SIGTERM: 3 s *)
+Definition sigint_timeout_ns : Z := 30000000000.    (* SIGINT: 30 s *)
+
 (* [waits]: in the signal branch the cli waits for Engine.Wait() (all pools done) between
-   receiving Run's result and log.Fatal. *)
-Definition cstep (waits : bool) (s : proc) (e : cev) : option proc :=
+   receiving Run's result and log.Fatal. [fwaits]: the failed-run branch calls Engine.Wait()
+   before its final log.Fatal. *)
+Definition cstep (waits fwaits : bool) (s : proc) (e : cev) : option proc :=
   match exited s with
   | Some _ => None      (* the process is gone: nothing happens any more *)
   | None =>
@@ -227,7 +234,7 @@ Definition cstep (waits : bool) (s : proc) (e : cev) : option proc :=
           match r with
           | ExOk => run_ok s
           | ExInterrupted => sig s && cancelled s && run_ret s && (if waits then all_true (pool_done s) else true)
-          | ExFailed => run_failed s && cancelled s && all_true (pool_done s)     (* pandora.Wait() returned *)
+          | ExFailed => run_failed s && cancelled s && (if fwaits then all_true (pool_done s) else true)   (* pandora.Wait() returned *)
           | ExTimeout => timed_out s
           | ExSignal2 => sig2 s
           end in
@@ -239,14 +246,15 @@ Definition cstep (waits : bool) (s : proc) (e : cev) : option proc :=
     end
   end.
 
-Fixpoint crun (waits : bool) (s : proc) (h : list cev) : option proc :=
+Fixpoint crun (waits fwaits : bool) (s : proc) (h : list cev) : option proc :=
   match h with
   | [] => Some s
-  | e :: r => match cstep waits s e with Some s' => crun waits s' r | None => None end
+  | e :: r => match cstep waits fwaits s e with Some s' => crun waits fwaits s' r | None => None end
   end.
 
 (* what cli/cli.go does now (regenerated from the source on every run) *)
 Definition cli_waits : bool := gen_cli_signal_waits.
+Definition cli_failed_waits : bool := gen_cli_failed_waits.
 
 (* an exit that is not forced by the interrupt timeout or by a second signal *)
 Definition orderly (r : exit_reason) : bool :=
